@@ -5,5 +5,6 @@ CONSTANTS
   AsCoded = FALSE
   Crashes = FALSE
   Depth = 4
+  Forks = TRUE
 INVARIANTS GenInv Dump
 CHECK_DEADLOCK FALSE
